@@ -111,6 +111,18 @@ def run(ctx, pid):
     else:
         trace, cfg, nlines = os.path.join(outdir, "codec.ndjson"), "Mon_CrdtCodec.cfg", stats["codec"]
         pat = r'<<"MISMATCH", (\d+), "(\w+)", "([\w-]+)", "(\w*)">>'
+    cap = 25000 if quick else 400000
+    if pid != "C39" and nlines > cap:      # records are independent of each other: judge a seeded sample
+        with open(trace) as f:
+            recs = f.read().splitlines()
+        keep = [i for i, r in enumerate(recs) if '"rec":"key"' in r]
+        rest = [i for i, r in enumerate(recs) if '"rec":"key"' not in r]
+        recs = [recs[i] for i in sorted(keep + ctx.rng.sample(rest, cap - len(keep)))]
+        trace = ctx.tmp("sampled.ndjson")
+        with open(trace, "w") as f:
+            f.write("\n".join(recs) + "\n")
+        ctx.log("judging a seeded sample of %d of %d records" % (cap, nlines))
+        nlines = cap
     mon = ctx.tlc(SPEC, cfg, dfs=True, files={"trace.ndjson": trace}, timeout=2400, heap="12g")
     if mon.depth != nlines + 1:
         raise vlib.Infra("monitor did not consume the whole trace (%d of %d)" % (mon.depth - 1, nlines))
@@ -140,7 +152,7 @@ def run(ctx, pid):
         "states": ctx.states()[0], "transitions": ctx.states()[1],
         "traces_validated_against_impl": len(behaviours),
         "samples": samples,
-        "evaluations": {"C38": stats["law_triples"], "C39": stats["steps"], "C40": stats["codec"]}[pid],
+        "evaluations": {"C38": min(stats["law_triples"], nlines), "C39": stats["steps"], "C40": min(stats["codec"], nlines)}[pid],
         "distinct_nontrivial": len(shapes),
         "rule": "every step history of length D over {Update, Deliver, Merge, Compact} x 7 CRDT types x 2 replicas (TLC BFS) plus "
                 "seeded TLC random walks (3 replicas, batched updates, depth 9); non-trivial = distinct history that contains an "
